@@ -423,6 +423,7 @@ pub fn check(prop: &str, tier: Tier, seed: u64) -> CheckReport {
     let mut exit = 0;
     let mut known_hit = vec![];
     let mut known_printed: Vec<String> = vec![];
+    let mut minimised = 0usize;
     let mut new_violations = vec![];
     for (sig, (idx, v)) in &viol {
         let listed = known.iter().find(|k| {
@@ -439,20 +440,28 @@ pub fn check(prop: &str, tier: Tier, seed: u64) -> CheckReport {
         }
         // minimise + replay file
         let o = &batch.outcomes[*idx];
-        let min = minimise(
+        minimised += 1;
+        // minimisation is expensive: only the first few violations of a run
+        // are shrunk, the rest keep their original (already replayable) plan
+        let min_budget = if minimised <= 4 && spec.family != "crash" {
+            if tier == Tier::Quick { 45 } else { 180 }
+        } else {
+            0
+        };
+        let min = if min_budget == 0 { o.plan.clone() } else { minimise(
             &o.plan,
             spec.id,
             sig,
             &root,
             Duration::from_secs(spec.run_timeout_s),
-            Duration::from_secs(if tier == Tier::Quick { 45 } else { 180 }),
-        );
-        let confirm = run_plan_once(
+            Duration::from_secs(min_budget),
+        ) };
+        let confirm = if min_budget == 0 { ChildEnd::Failed("not minimised".into()) } else { run_plan_once(
             &min,
             &root,
             "confirm",
             Duration::from_secs(spec.run_timeout_s),
-        );
+        ) };
         let (final_plan, confirmed) = if reproduces(&confirm, spec.id, sig) {
             (min, true)
         } else {
